@@ -187,14 +187,37 @@ func fdCounts() (fds, listeners int) {
 	return
 }
 
-// settle polls until the goroutine count has been the same for two consecutive probes.
+// settle waits for goroutines that have been told to stop to be gone: up to 2 s for the count
+// to be back at the baseline (twice in a row); if it does not get there, until it has been
+// the same for three consecutive probes.  No wall-clock figure is compared anywhere.
+var settleBase = -1
+
 func settle() int {
-	prev := -1
-	for i := 0; i < 60; i++ {
-		time.Sleep(4 * time.Millisecond)
+	if settleBase >= 0 {
+		hits := 0
+		for i := 0; i < 400; i++ {
+			time.Sleep(5 * time.Millisecond)
+			if honeytrapGoroutines() == settleBase {
+				hits++
+				if hits == 2 {
+					return settleBase
+				}
+			} else {
+				hits = 0
+			}
+		}
+	}
+	prev, same := -1, 0
+	for i := 0; i < 200; i++ {
+		time.Sleep(5 * time.Millisecond)
 		g := honeytrapGoroutines()
 		if g == prev {
-			return g
+			same++
+			if same == 2 {
+				return g
+			}
+		} else {
+			same = 0
 		}
 		prev = g
 	}
@@ -284,7 +307,7 @@ var (
 // waitAccepted: a client that does not pipeline - it goes on only once the server has
 // accepted its data connection (the accept goroutine of the passive socket has finished)
 func waitAccepted() {
-	for i := 0; i < 1500; i++ {
+	for i := 0; i < 25000; i++ {
 		heldMu.Lock()
 		n := runtime.Stack(stackBuf2, true)
 		ok := n < len(stackBuf2) && !bytes.Contains(stackBuf2[:n], []byte("GoListenAndServe.func1"))
@@ -512,6 +535,7 @@ func childMain(specPath, outPath string) {
 	}
 	time.Sleep(10 * time.Millisecond)
 	g0 := settle()
+	settleBase = g0
 	f0, l0 := fdCounts()
 	for i := 0; i < sp.N; i++ {
 		var ob ConnObs
